@@ -781,11 +781,38 @@ def probe(sess, text, again, outdir, newparser=True, keep_struct=True):
     return out
 
 
+_CONST_IDS = None
+
+
+def constants_state():
+    """repr of every class-level / module-level container the static scan classifies as a constant table (no mutation site
+    found): the runtime guard of that classification — a table whose repr changes during a history is state, not a constant"""
+    global _CONST_IDS
+    import importlib
+    import scriptplan
+    if _CONST_IDS is None:
+        root = os.path.dirname(os.path.abspath(scriptplan.__file__))
+        _CONST_IDS = [a for a, k, _w in scan_tree(root) if k == "constant-table"]
+    out = {}
+    for ident in _CONST_IDS:
+        rel, path = ident.split(":", 1)
+        try:
+            obj = importlib.import_module("scriptplan." + rel[:-3].replace(os.sep, ".").replace("/", "."))
+            for part in path.split("."):
+                obj = getattr(obj, part)
+        except Exception:  # noqa: BLE001  (optional module, attribute of a nested scope)
+            continue
+        if isinstance(obj, (dict, list, set, frozenset, tuple)):
+            out[ident] = hashlib.sha256(repr(obj).encode("utf-8", "replace")).hexdigest()[:16]
+    return out
+
+
 def hidden_history(req):
     """{"ops": [...], "probe": text, "again": n, "instrument": bool}"""
     sess = session()
     outdir = req.get("outdir") or None
     recs = []
+    consts0 = constants_state()
     if not req.get("instrument", True):
         sess.trace.uninstall()
     for op in req.get("ops", []):
@@ -794,8 +821,10 @@ def hidden_history(req):
     pr = probe(sess, req["probe"], req.get("again", 2), outdir, newparser=req.get("newparser", True),
                keep_struct=req.get("struct", True))
     sess.trace.uninstall()
+    consts1 = constants_state()
     return {"ops": recs, "probe": pr, "pid": os.getpid(), "hashseed": os.environ.get("PYTHONHASHSEED"),
-            "hashprobe": hash("scriptplan") & 0xFFFF}
+            "hashprobe": hash("scriptplan") & 0xFFFF, "constants": len(consts1),
+            "constants_changed": sorted(k for k in consts1 if consts0.get(k) != consts1[k])}
 
 
 def hidden_probe(req):
